@@ -38,7 +38,7 @@
    the old record (C01-unchanged-keeps-metadata), an empty payload is a size-0
    needle (no metadata, delete is a no-op, lost on reload). *)
 EXTENDS ReplWrite, Json
-CONSTANTS N, Keys, Cookies, Datas, MetaSet, VTtl, MaxOps, BKF, AckMissing, WithTransient, Faults, NoCountCheck, WithRace
+CONSTANTS N, Keys, Cookies, Datas, MetaSet, VTtl, MaxOps, BKF, AckMissing, WithTransient, Faults, NoCountCheck, WithRace, SkipFanoutUnchanged
 VARIABLES live, ro, cache, phase, hist
 ivars == <<live, ro, cache, phase, hist>>
 vars == <<ivars, avars>>
@@ -81,7 +81,9 @@ Upload(to, k, c, d, m, T) ==
       remote == locs \ {to}
       own == to \in InService
       early == locs = {} \/ (own /\ ~NoCountCheck /\ Cardinality(locs) < N) \/ (own /\ ro[to])
-      rres == [r \in remote |-> RemoteWrite(r, T)]
+      \* SkipFanoutUnchanged (a seeded defect, never the real code): an unchanged local write returns at once
+      skip == SkipFanoutUnchanged /\ own /\ Unchanged(live[to][k], c, d, m)
+      rres == [r \in remote |-> IF skip THEN "ack" ELSE RemoteWrite(r, T)]
       res == IF early \/ \E r \in remote : rres[r] = "err" THEN "err" ELSE "ok"
   IN /\ cache' = CacheAfter
      /\ live' = IF early THEN live
@@ -176,11 +178,15 @@ Spec == Init /\ [][Next]_vars
 SnapsAdmitted == phase = "snap" => \A k \in Keys : \E S \in SUBSET BKF : SnapOK(k, Obs(k), S)
 (* the statement itself, spelled out on the implementation state: after a successful operation on k,
    any two copies (in service or not) that are not excused by a listed deviation hold the same blob *)
-Excused(r, k) == \E a \in alt[r][k] : a.id \in BKF /\ Matches(a, HeldOf(r, k))
+Excused(r, k) == \E a \in alt[r][k] : a.ids \subseteq BKF /\ Matches(a, HeldOf(r, k))
 Agreement ==
   phase = "snap" =>
     \A k \in Keys : need[k] =>
-      \A r1, r2 \in member : (~Excused(r1, k) /\ ~Excused(r2, k)) => live[r1][k] = live[r2][k]
+      /\ \A r1, r2 \in member : (~Excused(r1, k) /\ ~Excused(r2, k)) => live[r1][k] = live[r2][k]
+      \* an excuse covers what the defect does to that copy only: the others still hold what it is bound to
+      /\ \A r \in member : Excused(r, k) =>
+            \E a \in alt[r][k] : /\ a.ids \subseteq BKF /\ Matches(a, HeldOf(r, k))
+                                  /\ \A w \in member : ~Excused(w, k) => Compatible(a, HeldOf(r, k), HeldOf(w, k))
 TypeOK == /\ member \subseteq Reps /\ mounted \subseteq member
           /\ cache = NoCache \/ cache \subseteq Reps
 
